@@ -52,17 +52,18 @@ Qed.
 (* ------------------------------------------------------------------ *)
 Definition legal (s : str) : bool := forallb xml_char s.
 Definition legal_opt (o : option str) : bool := match o with Some s => legal s | None => true end.
-Definition legal_value (v : aval) : bool := match v with AText s => legal s | ANameID f s => legal f && legal s end.
+Definition legal_value (v : aval) : bool := match v with AText s => legal s | ANameID f s => legal f && legal s | AOther s => legal s end.
 Definition legal_attribute (a : attribute) : bool :=
   legal (at_name a) && legal_opt (at_format a) && legal_opt (at_friendly a) && forallb legal_value (at_values a).
 
 Lemma wf_value v : legal_value v = true -> wf_xml (value_xml v) = true.
 Proof.
-  destruct v as [s|f s]; cbn [legal_value value_xml]; intros H.
+  destruct v as [s|f s|s]; cbn [legal_value value_xml]; intros H.
   - cbn [wf_xml forallb fst snd nodup_keys has_key existsb]. unfold legal in H. rewrite H.
     vm_compute. reflexivity.
   - apply andb_true_iff in H as [Hf Hs]. unfold legal in *.
     cbn [wf_xml forallb fst snd nodup_keys has_key existsb]. rewrite Hf, Hs. vm_compute. reflexivity.
+  - unfold legal in H. cbn [wf_xml forallb fst snd nodup_keys has_key existsb]. rewrite H. vm_compute. reflexivity.
 Qed.
 
 Lemma forallb_map {X Y} (f : Y -> bool) (g : X -> Y) l : forallb f (map g l) = forallb (fun x => f (g x)) l.
@@ -92,7 +93,7 @@ Qed.
 
 (* harvesting what was rendered gives the attributes back *)
 Lemma value_of_value_xml v : value_of_xml (value_xml v) = v.
-Proof. destruct v as [s|f s]; vm_compute; try reflexivity. Qed.
+Proof. destruct v as [s|f s|s]; vm_compute; try reflexivity. Qed.
 
 Lemma values_of_xml l : map value_of_xml (filter (fun k => str_eqb (x_tag k) (T "AttributeValue")) (map value_xml l)) = l.
 Proof.
@@ -117,7 +118,7 @@ Qed.
 
 (* what the XML end-of-line rule does to the values (nothing when they contain no CR) *)
 Definition norm_value (v : aval) : aval :=
-  match v with AText s => AText (norm_eol s) | ANameID f s => ANameID f (norm_eol s) end.
+  match v with AText s => AText (norm_eol s) | ANameID f s => ANameID f (norm_eol s) | AOther s => AOther (norm_eol s) end.
 Definition norm_attribute (a : attribute) : attribute :=
   {| at_name := at_name a; at_format := at_format a; at_friendly := at_friendly a; at_values := map norm_value (at_values a) |}.
 
@@ -125,7 +126,7 @@ Lemma norm_statement l : norm_xml (attr_statement_xml l) = attr_statement_xml (m
 Proof.
   unfold attr_statement_xml. cbn [norm_xml norm_eol]. f_equal. rewrite !map_map. apply map_ext. intros a.
   unfold attribute_xml, norm_attribute. cbn [norm_xml norm_eol at_name at_format at_friendly at_values]. f_equal.
-  rewrite !map_map. apply map_ext. intros [s|f s]; reflexivity.
+  rewrite !map_map. apply map_ext. intros [s|f s|s]; reflexivity.
 Qed.
 
 (* IdP attributes -> XML text -> reader -> attributes *)
@@ -137,12 +138,12 @@ Qed.
 
 Definition no_cr (s : str) : bool := forallb (fun c => negb (c =? 13)) s.
 Definition no_cr_attribute (a : attribute) : bool :=
-  forallb (fun v => match v with AText s => no_cr s | ANameID _ s => no_cr s end) (at_values a).
+  forallb (fun v => match v with AText s => no_cr s | ANameID _ s => no_cr s | AOther s => no_cr s end) (at_values a).
 Lemma norm_attribute_id a : no_cr_attribute a = true -> norm_attribute a = a.
 Proof.
   destruct a as [n f g vs]. unfold no_cr_attribute, norm_attribute. cbn [at_name at_format at_friendly at_values]. intros H. f_equal.
   induction vs as [|v vs IH]; [reflexivity|]. cbn [forallb] in H. apply andb_true_iff in H as [Hv Hvs]. cbn [map]. rewrite (IH Hvs). f_equal.
-  destruct v as [s|f' s]; cbn [norm_value]; unfold no_cr in Hv; now rewrite (norm_eol_id _ Hv).
+  destruct v as [s|f' s|s]; cbn [norm_value]; unfold no_cr in Hv; now rewrite (norm_eol_id _ Hv).
 Qed.
 Theorem attributes_through_text_exact l : legal_attributes l = true -> forallb no_cr_attribute l = true ->
   option_map attrs_of_statement_xml (xml_parse (serialise (attr_statement_xml l))) = Some l.
@@ -153,8 +154,8 @@ Proof.
 Qed.
 
 (* the structure of the statement depends on the shape of the identity only *)
-Definition value_shape (v : aval) : bool := match v with AText _ => false | ANameID _ _ => true end.
-Definition attribute_shape (a : attribute) : bool * bool * list bool :=
+Definition value_shape (v : aval) : nat := match v with AText _ => 0%nat | ANameID _ _ => 1%nat | AOther _ => 2%nat end.
+Definition attribute_shape (a : attribute) : bool * bool * list nat :=
   (match at_format a with Some _ => true | None => false end, match at_friendly a with Some _ => true | None => false end,
    map value_shape (at_values a)).
 
@@ -267,7 +268,7 @@ Lemma deliver_unmapped c sp_acs allow key vals : wire_name c key = None ->
   end.
 Proof.
   unfold wire_name, to_attr. cbn [fst snd]. intros Hw.
-  assert (forall l, map (fun v => match v with AText s => RStr (strip s) | ANameID _ _ => RStr [] end) (map AText l) = plain_values l) as L1
+  assert (forall l, map (fun v => match v with AText s => RStr (strip s) | ANameID _ _ | AOther _ => RStr [] end) (map AText l) = plain_values l) as L1
       by (intros l; unfold plain_values; now rewrite map_map).
   assert (forall loc l, map (read_value loc) (map AText l) = plain_values l) as L2
       by (intros loc l; unfold plain_values; now rewrite map_map).
